@@ -113,6 +113,7 @@ func New(maxConcurrent int, chQqueueSize int, v ...interface{}) *TaskPool {
 				if tp.fork(f) {
 					continue
 				}
+				atomic.AddInt64(&tp.concurrent, -1)
 
 				if f != nil {
 					tp.caller(f)
